@@ -81,6 +81,7 @@ func genWitnesses(run *hx.Run, r *hx.Rng) {
 		m.FullData = nil
 		c.ValidateSSV(kitSSV(w, spectypes.BNRoleAttester, m), at, Env{Mode: "n"}, "witness:honest-after-partial")
 		pm := tu.PostConsensusAttestationMsg(ks.Shares[1], 1, specqbft.Height(s))
+		pm.Message.Slot = phase0.Slot(s)
 		enc, _ := pm.Encode()
 		c.ValidateSSV(ssvOf(w, vMain, spectypes.BNRoleAttester, spectypes.SSVPartialSignatureMsgType, enc), at, Env{Mode: "n"}, "witness:honest-partial-current-slot")
 	case "partiallate":
